@@ -74,7 +74,7 @@ def main():
     for s in seeds:
         meta = json.load(open(os.path.join(SEEDED, s, 'meta.json')))
         target = meta['breaks_property']
-        props = all_props if args.all_checks else [target] + (['C12'] if s in ('C01-m2', 'C02-m10') else []) + (['C15'] if s == 'C10-m2' else [])
+        props = all_props if args.all_checks else [target] + (['C12'] if s in ('C01-m2', 'C02-m10', 'C06-m12') else []) + (['C15'] if s == 'C10-m2' else [])
         jobs.append((s, props))
     results = {}
     with cf.ThreadPoolExecutor(max_workers=args.jobs) as ex:
